@@ -9,6 +9,7 @@ package c20
 
 import (
 	"fmt"
+	"os"
 	"regexp"
 	"sort"
 	"strings"
@@ -83,8 +84,7 @@ func describePackages(sn *snap) string {
 
 // ---- scenario 1: repeated runs ----------------------------------------------------------
 
-func idempotenceBody(r *explore.Run, rep *report.R, sc string, cases []icase, runs int) {
-	ic := cases[r.Free(len(cases), "initial-store")]
+func idempotenceBody(r *explore.Run, rep *report.R, sc string, ic icase, runs int) {
 	xrh.BeginExecution(1)
 	s := ic.build()
 	fresh := freshCanon(ic.cfg)
@@ -222,8 +222,7 @@ func packageCases(thorough bool) []pkgCase {
 	return out
 }
 
-func packagesBody(r *explore.Run, rep *report.R, sc string, cases []pkgCase) {
-	pc := cases[r.Free(len(cases), "kind*request*installed")]
+func packagesBody(r *explore.Run, rep *report.R, sc string, pc pkgCase) {
 	xrh.BeginExecution(1)
 	cfg := cfgDefault
 	switch pc.kind {
@@ -379,9 +378,28 @@ func TestCheck(t *testing.T) {
 
 	wrap := report.Bubble(t)
 	scs := []report.Scenario{
-		{Name: "idempotence", Bound: 0, Wrap: wrap, Body: func(r *explore.Run) { idempotenceBody(r, rep, "idempotence", icases, runs) }},
-		{Name: "packages", Bound: 0, Wrap: wrap, Body: func(r *explore.Run) { packagesBody(r, rep, "packages", pcases) }},
+		// One flat, high-arity first choice over both input families, so that
+		// the explorer's shards split the cases instead of replaying them.
+		{Name: "repeated-runs", Bound: 0, Wrap: wrap, Body: func(r *explore.Run) {
+			i := r.Free(len(icases)+len(pcases), "initial-store | kind*request*installed")
+			if i < len(icases) {
+				idempotenceBody(r, rep, "idempotence", icases[i], runs)
+				return
+			}
+			packagesBody(r, rep, "packages", pcases[i-len(icases)])
+		}},
 		{Name: "abort-and-repeat", Bound: 1, Wrap: wrap, Body: func(r *explore.Run) { faultBody(r, rep, "abort-and-repeat", fcases, th) }},
+	}
+	// Debugging aid: VERIF_C20_ONLY=<scenario name> runs one scenario.
+	if only := os.Getenv("VERIF_C20_ONLY"); only != "" {
+		var keep []report.Scenario
+		for _, sc := range scs {
+			if sc.Name == only {
+				keep = append(keep, sc)
+			}
+		}
+		scs = keep
+		rep.Note("VERIF_C20_ONLY=%s: partial run", only)
 	}
 	rep.SelfCheck(t, scs[0], nil)
 	rep.RunScenarios(t, scs)
